@@ -22,3 +22,12 @@ package common
 //@   props C33
 //@   ensures nilrecv: a == nil ==> !ok
 //@   ensures kinds: ok <==> a != nil && (dyn(a.stakingPayload) == type(AddressPayloadKeyHash) || dyn(a.stakingPayload) == type(AddressPayloadScriptHash))
+
+// C30: the fee-relevant size is the length of the original encoding, minus one byte for a
+// four-element (definite-length, any header form) Alonzo-or-later envelope.
+//@ func TxSizeForFee(tx) (size, err)
+//@   props C30
+//@   let c = tx.Cbor()
+//@   let four = tx.Type() >= 4 && cbor.defArrayAt(c, 0) && cbor.hdrCount(c, 0) == 4
+//@   ensures four: len(c) > 0 && four ==> err == nil && size == len(c) - 1
+//@   ensures other: len(c) > 0 && !four ==> err == nil && size == len(c)
